@@ -304,6 +304,13 @@ def run(ctx):
                                     rv = s.get("rv", {})
                                     if rv.get("k") == "bin" and rv.get("ty") in ("f64", "f32") and rv["op"] in ("Lt", "Gt", "Le", "Ge"):
                                         badc.append("float compare")
+                            # a verdict that is a constant on some inputs and a real comparison on others is not
+                            # transitive (`_ => Ordering::Equal` for items whose key lookup failed: such an item is
+                            # "equal" to two items that are not equal to each other); std's sort panics on that
+                            rets = flow.origins(cl, 0)
+                            consts = [r for r in rets if r.kind == "const" or (r.kind == "agg" and (r.rv.get("adt") or "").endswith("cmp::Ordering"))]
+                            if consts and len(consts) < len(rets):
+                                badc.append("a constant Ordering for some pairs of items")
                             ctx.ob("C07.V2.comparator-is-total", "%s%s|%s" % (tag, f.path, c.name.split("::")[-1]), not badc,
                                    "comparator passed to %s uses %s: not a total order (NaN) / may panic" % (c.name.split("::")[-1], badc),
                                    f.where(c.bb))
